@@ -921,9 +921,12 @@ pub struct RunOutcome {
 pub fn run_once(prefix: Vec<Decision>, harness: &dyn Fn()) -> RunOutcome {
   with(|c| c.begin_run(prefix));
   crate::world::reset_world();
+  let _ = crate::world::take_panics();
   let r = std::panic::catch_unwind(std::panic::AssertUnwindSafe(|| harness()));
   let delivered = crate::world::any_delivery();
+  let panics = crate::world::take_panics();
   crate::world::reset_world();
+  let _ = crate::world::take_panics();
   let mut out = RunOutcome { violation: None, alternatives: vec![], pruned: false, panic_msg: None };
   let swallowed = with(|c| c.aborting);
   match r {
@@ -931,7 +934,13 @@ pub fn run_once(prefix: Vec<Decision>, harness: &dyn Fn()) -> RunOutcome {
       // the abort was swallowed somewhere and the harness ran to its end: honour the abort
       match swallowed {
         Some(2) | Some(3) => out.pruned = true,
-        _ => {}
+        Some(_) => {}
+        None => {
+          // a panic of the code under test that something (the scheduler's catch_unwind) swallowed
+          if let Some(m) = panics.first() {
+            out.panic_msg = Some(format!("{} [swallowed by a catch_unwind, found in the panic hook]", m));
+          }
+        }
       }
     }
     Err(p) => {
@@ -987,6 +996,12 @@ pub fn run_once(prefix: Vec<Decision>, harness: &dyn Fn()) -> RunOutcome {
       });
     }
     out.violation = c.violation.take();
+    // debugging aid: SX_FIND=<substring> prints the trail and notes of paths whose notes contain it
+    if let Ok(pat) = std::env::var("SX_FIND") {
+      if c.notes.iter().any(|n| n.contains(&pat)) {
+        eprintln!("SX_FIND {} pruned={} violation={:?}\n   {}", fmt_trail(&c.trail), out.pruned, out.violation.as_ref().map(|v| v.key.clone()), c.notes.join("\n   "));
+      }
+    }
     out.alternatives = std::mem::take(&mut c.alternatives);
     c.stats.max_depth = c.stats.max_depth.max(c.trail.len());
     if out.pruned {
